@@ -69,6 +69,9 @@ def run(ctx):
     P = ctx.P
     cg = callgraph(P)
     _r7_every_configured_suffix_is_routed(ctx)
+    # "names under a forward route go only to that route's server": the cache sits under the router; an entry answers only the
+    # question it was stored for (C06.R4), otherwise one route's answer is served for a name of another
+    ctx.include("C06", rules=("R4",))
     ew = "erbium::dns::dnspkt::Domain::ends_with"
     if ew not in P.bodies:
         ctx.bad("R1", "anchor", "", "Domain::ends_with not found")
